@@ -207,6 +207,16 @@ def mk_elem(it) -> Term:
     return ("elem", it)
 
 
+def _simplify_items(t):
+    """(a, b).0 -> a after a row was substituted for a loop element"""
+    if not isinstance(t, tuple):
+        return t
+    t = tuple(_simplify_items(x) for x in t)
+    if t[:1] == ("item",) and len(t) == 3 and isinstance(t[2], int) and t[1][:1] == ("tuple",) and -len(t[1][1]) <= t[2] < len(t[1][1]):
+        return t[1][1][t[2]]
+    return t
+
+
 def call_args(t, names: Sequence[str]) -> Optional[Tuple[Term, ...]]:
     """the arguments of call term t in the order of the parameter `names`, whether they were passed positionally or by
     keyword; None if that cannot be told (star arguments, unknown keyword, missing argument)"""
@@ -547,6 +557,14 @@ class Sym:
                 else:
                     body = ("call", g, (el,), ())
                 return ("acc", "gen", (("one", (), body),))
+            # tuple(f(r) for r in <display of n rows>) is the display (f(row_1), ..., f(row_n))
+            if f in (("glob", "tuple"), ("glob", "list")) and len(pos) == 1 and not kws and pos[0][:1] == ("acc",) and pos[0][1] in ("gen", "list") \
+                    and len(pos[0][2]) == 1 and pos[0][2][0][0] == "one" and not pos[0][2][0][1]:
+                body_t = pos[0][2][0][2]
+                elems = {x for x in subterms(body_t) if x[:1] == ("elem",) and x[1][:1] == ("tuple",) and 0 < len(x[1][1]) <= 8}
+                if len(elems) == 1:
+                    el = next(iter(elems))
+                    return ("tuple" if f[1] == "tuple" else "list", tuple(_simplify_items(subst(body_t, {el: row})) for row in el[1][1]))
             # list(<generator built here>) is the list with the same contributions
             if f in (("glob", "list"), ("glob", "set")) and len(pos) == 1 and not kws and pos[0][:1] == ("acc",) and pos[0][1] in ("gen", "list", "set"):
                 return ("acc", f[1], pos[0][2])
